@@ -769,7 +769,8 @@ struct byvalue_runner
       sig = std::make_unique<Sig>();
     std::vector<std::optional<fcppt::signal::auto_connection>> conns;
     std::vector<int> ids;
-    std::vector<std::pair<int, std::string>> seen; // (connection id, the argument as this callback received it)
+    std::map<int, int> calls_of; // model: how often the callback of a connection has run
+    std::vector<std::pair<int, std::string>> seen; // (connection id, the argument as this callback received it # its own call count)
     int next_id = 1;
     unsigned const steps = 4 + static_cast<unsigned>(g.below(8));
     for (unsigned q = 0; q < steps; ++q)
@@ -781,9 +782,12 @@ struct byvalue_runner
         bool const greedy = g.below(2) == 0; // takes the parameter by value and moves it on
         vf::extend_case(" connect(%d%s)", id, greedy ? ",moves" : "");
         using fn = typename Sig::function;
-        auto cb = [id, greedy, &seen, show, use](Arg a) {
-          seen.emplace_back(id, show(a));
-          int const r = callback_value(id, use(a));
+        // the callback keeps state INSIDE itself (own_calls): the signal invokes the callback object the connection
+        // owns, every time - not a copy of it
+        auto cb = [id, greedy, &seen, show, use, own_calls = 0](Arg a) mutable {
+          ++own_calls;
+          seen.emplace_back(id, show(a) + "#" + std::to_string(own_calls));
+          int const r = callback_value(id, use(a) + own_calls);
           if (greedy)
           {
             Arg sink(std::move(a));
@@ -816,7 +820,7 @@ struct byvalue_runner
         {
           got = as_rvalue ? (*sig)(typename Sig::initial_value{1000}, Arg(v)) : (*sig)(typename Sig::initial_value{1000}, lv);
           for (int id : ids)
-            want = combine(want, callback_value(id, use(v)));
+            want = combine(want, callback_value(id, use(v) + calls_of[id] + 1));
         }
         else
         {
@@ -836,13 +840,16 @@ struct byvalue_runner
           {
             if (seen[k].first != ids[k])
               vf::violation(key + "/order", "mismatch", "position " + std::to_string(k));
-            if (seen[k].second != show(v))
+            if (seen[k].second != show(v) + "#" + std::to_string(calls_of[ids[k]] + 1))
             {
               vf::violation(key + "/argument-seen-by-later-callback", "mismatch",
-                            "callback " + std::to_string(k) + " of " + std::to_string(ids.size()) + " received " + seen[k].second + " for the argument " + show(v));
+                            "callback " + std::to_string(k) + " of " + std::to_string(ids.size()) + " received " + seen[k].second + " (argument # own call count) for the argument " + show(v) +
+                                " at its call " + std::to_string(calls_of[ids[k]] + 1));
               break;
             }
           }
+        for (int id : ids)
+          ++calls_of[id];
         if (returns && got != want)
           vf::violation(key + "/fold", "mismatch", "result " + std::to_string(got) + ", left fold of the callbacks on the argument gives " + std::to_string(want));
         if (!as_rvalue && show(lv) != show(v))
